@@ -464,6 +464,8 @@ func (e *racEnv) call(x *ECall) gval {
 		return gval{s: "((" + e.c(a[0]) + " &^ " + e.c(a[1]) + ") == 0)", k: gBool, elem: nil}
 	case "flag":
 		return gv(fmt.Sprintf("func() uint32 { if %s { return %s }; return 0 }()", e.b(a[0]), e.c(a[1])), gCond, nil)
+	case "wordskept":
+		return gval{s: "true", k: gBool, elem: nil}
 	case "negzero":
 		return gv("racNegZero("+e.eval(a[0]).s+")", gBool, nil)
 	case "bvdec":
